@@ -429,6 +429,9 @@ func (ex *Exec) applyContract(st *State, i *ssa.Call, f *ssa.Function, fc *FuncC
 		results = append(results, rv)
 		resVars[name] = TV{V: rv, Signed: isSigned(rs.At(j).Type())}
 	}
+	if fc.Pure {
+		ex.purify(st, pre, f, args, results)
+	}
 	// ensures
 	for _, c := range append(append([]*Clause{}, fc.Ensures...), fc.Defines...) {
 		if !active(c) {
@@ -626,4 +629,36 @@ func calleePkg(f *ssa.Function) *types.Package {
 		return f.Pkg.Pkg
 	}
 	return nil
+}
+
+// purify: the callee is a function of its arguments: its scalar results, and the memory it
+// writes through pointer arguments, are named deterministically (same names as pure(...) and
+// fpslow(...) in contracts).
+func (ex *Exec) purify(st, pre *State, f *ssa.Function, args []Value, results TupleV) {
+	key := calleeKey(f)
+	var flat []*Term
+	// flatten against the pre-state (the snapshot kept for old()): pointees were already havocked by `assigns`
+	for _, a := range args {
+		ex.flattenEq(pre, a, &flat)
+	}
+	for k, a := range args {
+		if pv, ok := a.(*PtrV); ok && pv.P.Root != nil {
+			if _, isGlobal := pv.P.Root.(*ssa.Global); isGlobal {
+				continue
+			}
+			old := ex.load(pre, pv.P)
+			ex.storeTo(st, pv.P, ex.detValue(fmt.Sprintf("pure.%s.arg%d", key, k), old, nil, flat))
+		}
+	}
+	rs := f.Signature.Results()
+	for j := 0; j < rs.Len() && j < len(results); j++ {
+		so := sortOf(rs.At(j).Type())
+		if so == nil {
+			continue
+		}
+		t := App(fmt.Sprintf("pure.%s.res%d", key, j), so, flat...)
+		if old, ok := results[j].(*Term); ok && old.Sort == so {
+			st.assume(Eq(old, t))
+		}
+	}
 }
